@@ -26,7 +26,7 @@ ASSUMPTIONS = [
 ]
 
 METHODS = ["str", "pairs", "sequence", "dot_bracket", "fcfs", "all_dot_brackets", "elements",
-           "without_pseudoknots", "without_isolated", "convert_cbc", "twin"]
+           "without_pseudoknots", "without_isolated", "convert_cbc", "convert_none", "twin"]
 
 
 def _pairs_of_text(text):
@@ -62,6 +62,9 @@ def _call(obj, method):
         import pulp
 
         return _db(obj.convert_to_dot_bracket(pulp.PULP_CBC_CMD(msg=False)))
+    if method == "convert_none":
+        # the documented no-solver call: answers the first-come-first-served notation, and is a query like the others
+        return _db(obj.convert_to_dot_bracket(None))
     if method == "all_dot_brackets":
         return sorted(_db(d) for d in obj.all_dot_brackets)
     if method == "elements":
